@@ -37,6 +37,7 @@ type c03DirCfg struct {
 	nSym        int
 	nText       int // sub-directive value
 	nPath       int // include path
+	acctSplit   bool
 	nCmnt       int
 	cmnts       []int
 	shapes      []c03NumShape // number samples in commodity / D / format
@@ -115,7 +116,24 @@ func verifC03Directive(cfg c03DirCfg, kind int) {
 
 	switch kind {
 	case 0: // account
-		acct := c03MkAcct("acct", cfg.nSeg, cfg.nChar, cfg.wideFirst, cfg.wideRest)
+		subN, plain := 3, false
+		if cfg.acctSplit {
+			// thorough tier: the name, the comment and the sub-directive are varied separately
+			switch zzverif.Choice("acct.focus", 3) {
+			case 0: // the name
+				cfg.cmnts, cfg.nCmnt, cfg.gapN, subN = []int{-1, 0}, 1, 1, 1
+			case 1: // the comment; no sub-directive or a one-character one
+				plain, cfg.nText, cfg.indN = true, 1, 1
+			default: // the sub-directive
+				plain, cfg.cmnts, cfg.nCmnt, cfg.gapN = true, []int{-1, 0}, 1, 1
+			}
+		}
+		var acct string
+		if plain {
+			acct = c03PlainAcct("acct")
+		} else {
+			acct = c03MkAcct("acct", cfg.nSeg, cfg.nChar, cfg.wideFirst, cfg.wideRest)
+		}
 		text := "account "
 		acctOff := len(text)
 		text += acct
@@ -128,7 +146,7 @@ func verifC03Directive(cfg c03DirCfg, kind int) {
 		}
 		text += eol
 		subKey, subVal, hasSub := "", "", false
-		if k := zzverif.Choice("sub", 3); k > 0 {
+		if k := zzverif.Choice("sub", subN); k > 0 {
 			subKey = []string{"note", "type"}[k-1]
 			// value of the sub-directive: `desc` text without ':' (G leaves account sub-directives open)
 			edge := zzverif.Printable(";|: ")
@@ -192,7 +210,11 @@ func verifC03Directive(cfg c03DirCfg, kind int) {
 		fmtOff := -1
 		if hasFmt {
 			f := c03MkSample("f", fmtCfg, true)
-			text += c03Indent("ind", cfg.indN)
+			ind := cfg.indN
+			if form != 3 && cfg.acctSplit {
+				ind = 1 // thorough tier: every indentation only in front of the simple format sample
+			}
+			text += c03Indent("ind", ind)
 			fmtOff = len(text)
 			text += "format " + f.text + eol
 			wantFmt = f.text
@@ -339,8 +361,8 @@ func VerifC03DirectiveK5() { verifC03Directive(c03DirQuick(), 5) }
 // thorough tier: every kind with larger leaves, every indentation, long number notations; the
 // P directive keeps symbol kinds and price forms separate (their product is out of reach)
 func c03DirDeep() c03DirCfg {
-	return c03DirCfg{nSeg: 2, nChar: 2, nSym: 3, nText: 4, nPath: 5, nCmnt: 2, cmnts: []int{-1, 0, 1, 3}, shapes: c03NumShapes(false), pShapes: c03NumShapes(true),
-		pForms: c03AllForms, pDates: []int{0, 3, 5, 10}, pFocus: 2, comForms: 6, gapN: 2, indN: 9, wideFirst: 7, wideRest: 1}
+	return c03DirCfg{nSeg: 2, nChar: 2, acctSplit: true, nSym: 2, nText: 4, nPath: 5, nCmnt: 2, cmnts: []int{-1, 0, 1, 3}, shapes: c03NumShapes(false), pShapes: c03NumShapes(false),
+		pForms: c03AllForms, pDates: []int{3, 10}, pFocus: 2, comForms: 4, gapN: 2, indN: 9, wideFirst: 7, wideRest: 1}
 }
 
 func VerifC03DirectiveDeep() {
